@@ -17,7 +17,10 @@ from .common import REPO, ROOT
 RULE = (
 	'import graphs from VERIF_SEED: chains, diamonds, repeated imports, cycles (through the root, self-imports, elsewhere), random DAGs and '
 	'digraphs over 1-9 files, islands (unreachable files, also broken ones), missing and unparsable targets, files holding a single statement '
-	'(one import / one declaration / one comment), imports interleaved with declarations, nested directories; each graph is written to a '
+	'(one import / one declaration / one comment), imports interleaved with declarations, nested directories, distinct files whose names differ '
+	'only in letter case / unicode normal form / under case folding, one file imported under several spellings (./x, zz/../x, x//y, d/./x, '
+	'd/../d/x), structs that carry a validation error of either stage (4 PRE_EXPANSION kinds, 4 POST_EXPANSION kinds) as plain / abstract / '
+	'inline struct, used as named inline / unnamed inline / member type / not at all, in the same or in an imported file; each graph is written to a '
 	'scratch directory and parsed from 2-3 (working directory x relative/absolute include path x root spelling) configurations through '
 	'LarkMultiFileParser().parse, through main() in-process (exit status, output file, generator) and through `python -m catparser` '
 	'subprocesses. A case is distinct by (graph, configuration, mode); non-trivial = the implementation was executed on it.')
@@ -30,7 +33,9 @@ TRUSTED_BASE = [
 	'theorems (their own correctness is C06/C15)',
 ]
 ASSUMPTIONS = [
-	'import strings are the canonical include-relative paths of the files (no "..", no symlinks): two spellings of one file are outside the quantifier',
+	'a file is identified by the file-system object its import string resolves to (the model abstracts import strings to file identities); '
+	'spellings with `.`, `..`, doubled separators are generated, symlinks and absolute import strings are not; the file system is case sensitive '
+	'(checked at start, the case-collision graphs are skipped otherwise)',
 	'a file is identified by its path; the model abstracts a parsed file to (imports in order, declaration names in order)',
 	'exceptions that escape main() give interpreter exit status 1 (checked on real subprocesses for a sample of cases)',
 ]
@@ -60,19 +65,63 @@ def decl_text(kind, name, doc):
 		return text + f'struct {name}\n\tfield_a = Missing{name}\n'
 	if 'invalid_post' == kind:  # parses, fails POST_EXPANSION validation only
 		return text + f'@size(absent)\nstruct {name}\n\tfield_a = uint8\n'
+	if kind.startswith('carrier:'):  # carrier:<error kind or ok>:<plain|abstract|inline>
+		_, error, disposition = kind.split(':')
+		attribute, body = CARRIER_ERRORS[error]
+		return text + f'{attribute}{"" if "plain" == disposition else disposition + " "}struct {name}\n{body}'
+	if kind.startswith('host:'):  # host:<named|unnamed|fieldtype>:<carrier name>
+		_, usage, carrier = kind.split(':')
+		member = {'named': f'body = inline {carrier}', 'unnamed': f'inline {carrier}', 'fieldtype': f'body = {carrier}'}[usage]
+		return text + f'struct {name}\n\tbefore = uint8\n\t{member}\n'
 	raise ValueError(kind)
 
 
+# validation errors by stage: (attribute lines, body) of the struct that carries the error. `pre-*` are reported by the PRE_EXPANSION
+# pass, `post-*` only by the POST_EXPANSION pass (struct-level attributes that name an unknown member); `ok` carries none.
+CARRIER_ERRORS = {
+	'pre-unknown-type': ('', '\tfield_a = MissingThing\n'),
+	'pre-duplicate-field': ('', '\tfield_a = uint8\n\tfield_a = uint16\n'),
+	'pre-unknown-condition': ('', '\tfield_a = uint8 if 3 equals absent\n'),
+	'pre-unknown-size': ('', '\tfield_a = array(uint8, absent)\n'),
+	'post-size': ('@size(absent)\n', '\tfield_a = uint8\n'),
+	'post-discriminator': ('@discriminator(absent)\n', '\tfield_a = uint8\n'),
+	'post-initializes': ('@initializes(absent, FOO_BAR)\n', '\tfield_a = uint8\n'),
+	'post-comparer': ('@comparer(absent)\n', '\tfield_a = uint8\n'),
+	'ok': ('', '\tfield_a = uint8\n'),
+}
+
+
 UNPARSABLE_TEXTS = ['using lower = uint8\n', 'struct\n', '', 'using Foo = uint24\n', 'import foo\n', 'struct Foo\nfield = uint8\n', 'using Foo = uint8']
+
+
+def spell(path, style):
+	"""another spelling of the include-relative path of a file (the directory `zz` exists in every include directory)"""
+	if 'dot' == style:
+		return './' + path
+	if 'dotdot' == style:
+		return 'zz/../' + path
+	if 'slashes' == style:
+		return path.replace('/', '//') if '/' in path else './/' + path
+	if 'inner-dot' == style:
+		head, tail = os.path.split(path)
+		return f'{head}/./{tail}' if head else './././' + path
+	if 'dir-dotdot' == style and '/' in path:
+		head, tail = path.split('/', 1)
+		return f'{head}/../{head}/{tail}'
+	return path
+
+
+SPELLINGS = ['plain', 'dot', 'dotdot', 'slashes', 'inner-dot', 'dir-dotdot']
 
 
 def file_text(spec, paths):
 	if 'unparsable' == spec['kind']:
 		return UNPARSABLE_TEXTS[spec['variant'] % len(UNPARSABLE_TEXTS)]
 	parts = []
+	styles = list(spec.get('spellings') or [])
 	for item in spec['items']:
 		if 'import' == item[0]:
-			parts.append(f'import "{paths[item[1]]}"\n')
+			parts.append(f'import "{spell(paths[item[1]], styles.pop(0) if styles else "plain")}"\n')
 		elif 'decl' == item[0]:
 			parts.append(decl_text(item[1], item[2], item[3]))
 		else:
@@ -118,12 +167,28 @@ def gen_items(rng, index, imports, single=None, decl_kinds=('alias', 'enum', 'st
 	return result
 
 
+DISTINCT_NAMES = [True]  # the scratch file system keeps names that differ in case / unicode normal form apart
+
+
+def probe_file_system(directory):
+	os.makedirs(directory, exist_ok=True)
+	names = ['probe.cats', 'PROBE.cats', 'caf\u00e9.cats', 'cafe\u0301.cats']
+	for name in names:
+		with open(os.path.join(directory, name), 'wt', encoding='utf8') as outfile:
+			outfile.write(name)
+	DISTINCT_NAMES[0] = len(set(os.listdir(directory))) == len(names)
+	return DISTINCT_NAMES[0]
+
+
 def gen_graph(rng, thorough):
 	"""returns dict(files={id: spec}, root=id, shape=str). ids are 'f<n>'; an import may name an id without a file (missing)."""
 	# pylint: disable=too-many-branches,too-many-statements,too-many-locals
 	shape = rng.choice([
 		'chain', 'diamond', 'repeated', 'cycle', 'root-cycle', 'root-self', 'dag', 'digraph', 'digraph', 'missing', 'unparsable', 'single-import',
-		'single-decl', 'single-comment', 'invalid', 'invalid-post', 'island'])
+		'single-decl', 'single-comment', 'invalid', 'invalid-post', 'island', 'case-collision', 'case-collision', 'unicode-names', 'spellings',
+		'carriers', 'carriers'])
+	if shape in ('case-collision', 'unicode-names') and not DISTINCT_NAMES[0]:
+		shape = 'dag'
 	count = rng.randint(2, 12 if thorough else 7)
 	edges = {index: [] for index in range(count)}
 	kinds = {}
@@ -199,6 +264,55 @@ def gen_graph(rng, thorough):
 		if rng.random() < 0.5:
 			kinds[island] = 'unparsable'
 	nested = rng.random() < 0.4
+	carriers = {}
+	if 'carriers' == shape:
+		# a struct that carries a validation error of one stage (or none), plain / abstract / inline, used as a named inline, an unnamed inline,
+		# a member type, or not at all, by a struct of the same file or of a file that imports the carrier's file
+		for number in range(rng.choice([1, 1, 2])):
+			error = rng.choice(list(CARRIER_ERRORS))
+			disposition = rng.choice(['plain', 'abstract', 'inline', 'inline'])
+			usage = rng.choice(['none', 'named', 'unnamed', 'fieldtype'])
+			if 'named' == usage and 'inline' != disposition:
+				usage = 'unnamed'  # (a named inline of a struct that is not inline is an error of the host, not of the carrier)
+			carrier_file, host_file = rng.randrange(count), rng.randrange(count)
+			if host_file != carrier_file and carrier_file not in edges[host_file]:
+				edges[host_file].append(carrier_file)
+			for member in (host_file, carrier_file):
+				if 0 != member and rng.random() < 0.8 and not any(member in targets for source, targets in edges.items() if source != member):
+					edges[0].append(member)
+			carriers.setdefault(carrier_file, []).append(['decl', f'carrier:{error}:{disposition}', f'Car{number}x{carrier_file}', rng.random() < 0.2])
+			if 'none' != usage:
+				carriers.setdefault(host_file, []).append(['decl', f'host:{usage}:Car{number}x{carrier_file}', f'Host{number}x{host_file}', False])
+	if 'spellings' == shape and count > 1:
+		# the same file imported twice from one place, so that two spellings of one file meet
+		for _ in range(rng.randint(1, 2)):
+			source = rng.randrange(count)
+			edges[source].append(rng.choice(edges[source]) if edges[source] and rng.random() < 0.7 else rng.randrange(count))
+	custom_paths = {}
+	if shape in ('case-collision', 'unicode-names') and count > 1:
+		# distinct files whose names differ only in letter case / in the unicode normal form / under case folding
+		for number in range(rng.choice([1, 1, 2])):
+			first, second = rng.sample(range(count), 2)
+			if first in custom_paths or second in custom_paths:
+				continue
+			base = relpath_of(first, nested)
+			if 'case-collision' == shape:
+				head, tail = os.path.split(base)
+				variant = rng.choice(['stem', 'extension', 'directory', 'all'])
+				if 'directory' == variant and not head:
+					variant = 'stem'
+				custom_paths[first] = base
+				custom_paths[second] = {
+					'stem': os.path.join(head, tail.replace('f', 'F')), 'extension': os.path.join(head, tail.replace('.cats', '.CATS')),
+					'directory': os.path.join(head.upper(), tail), 'all': base.upper()}[variant]
+			else:
+				pair = rng.choice([('caf\u00e9', 'cafe\u0301'), ('stra\u00dfe', 'strasse'), ('\u01c6x', '\u01c5x'), ('\ufb01le', 'file')])
+				directory = os.path.dirname(base)
+				custom_paths[first] = os.path.join(directory, f'{pair[0]}{number}.cats')
+				custom_paths[second] = os.path.join(directory, f'{pair[1]}{number}.cats')
+			for member in (first, second):
+				if 0 != member and not any(member in targets for source, targets in edges.items() if source != member):
+					edges[rng.choice([0, 0, first if first != member else 0])].append(member)
 	files = {}
 	for index in range(count):
 		ident = f'f{index}'
@@ -211,7 +325,13 @@ def gen_graph(rng, thorough):
 		if 'invalid-post' == shape and (0 == index or rng.random() < 0.3):
 			decl_kinds = ('invalid_post',)
 		items = gen_items(rng, index, [f'f{target}' for target in edges[index]], singles.get(index), decl_kinds)
-		files[ident] = {'path': relpath_of(index, nested), 'kind': 'parsed', 'items': items}
+		items += carriers.get(index, [])
+		files[ident] = {'path': custom_paths.get(index, relpath_of(index, nested)), 'kind': 'parsed', 'items': items}
+		if 'spellings' == shape or (shape in ('case-collision', 'unicode-names') and rng.random() < 0.3):
+			files[ident]['spellings'] = [rng.choice(SPELLINGS) for _ in imports_of(files[ident])]
+	for index in range(count):
+		if 'unparsable' == kinds.get(index) and index in custom_paths:
+			files[f'f{index}']['path'] = custom_paths[index]
 	return {'files': files, 'root': 'f0', 'shape': shape, 'missing': [f'f{index}' for index in missing], 'nested': nested}
 
 
@@ -227,6 +347,7 @@ def write_graph(graph, directory):
 	paths = {ident: spec['path'] for ident, spec in graph['files'].items()}
 	for ident in graph['missing']:
 		paths[ident] = f'{ident}-absent.cats'
+	os.makedirs(os.path.join(directory, 'zz'), exist_ok=True)
 	for ident, spec in graph['files'].items():
 		target = os.path.join(directory, spec['path'])
 		os.makedirs(os.path.dirname(target), exist_ok=True)
@@ -295,9 +416,15 @@ def simulate_defects(graph, flags):
 def validity(graph, names):
 	"""(pre-expansion valid, post-expansion valid) of the contributed declarations."""
 	kinds = {item[2]: item[1] for spec in graph['files'].values() for item in spec['items'] if 'decl' == item[0]}
-	pre = all('invalid' != kinds[name] for name in names)
-	post = all('invalid_post' != kinds[name] for name in names)
+	pre = all('invalid' != kinds[name] and not kinds[name].startswith('carrier:pre-') for name in names)
+	post = all('invalid_post' != kinds[name] and not kinds[name].startswith('carrier:post-') for name in names)
 	return pre, post
+
+
+def emitted(graph, names):
+	"""the declarations handed to the generator: the contributed ones without the inline structs (expanded into their hosts)"""
+	kinds = {item[2]: item[1] for spec in graph['files'].values() for item in spec['items'] if 'decl' == item[0]}
+	return [name for name in names if not (kinds[name].startswith('carrier:') and kinds[name].endswith(':inline'))]
 
 
 def expected_exit(graph, outcome, generation_ok=True):
@@ -448,6 +575,33 @@ class Implementation:
 				return ('err', type(ex).__name__, str(ex)[:200], [str(path) for path in parser.processed_filepaths], captured.getvalue())
 			processed = [os.path.realpath(str(path)) for path in parser.processed_filepaths]
 			return ('ok', [descriptor.name for descriptor in descriptors], processed, captured.getvalue())
+
+	def validate_parsed_set(self, cwd, include, root):
+		"""(errors PRE_EXPANSION, errors POST_EXPANSION | None) of the validator run over EVERY declaration parse(root) returns, with the
+		post-processing main() performs in between; None when parsing or post-processing raises."""
+		with working_directory(cwd), self.shared(True), contextlib.redirect_stdout(io.StringIO()):
+			parser = self.module.LarkMultiFileParser()
+			parser.set_include_path(include)
+			try:
+				raw = parser.parse(root)
+				validator_class = self.module.AstValidator
+
+				def errors(mode):
+					validator = validator_class(raw)
+					validator.set_validation_mode(mode)
+					validator.validate()
+					return len(validator.errors)
+
+				pre = errors(validator_class.Mode.PRE_EXPANSION)
+				if pre:
+					return (pre, None)
+				processor = self.module.AstPostProcessor(raw)
+				processor.apply_attributes()
+				processor.expand_named_inlines()
+				processor.expand_unnamed_inlines()
+				return (0, errors(validator_class.Mode.POST_EXPANSION))
+			except Exception:  # pylint: disable=broad-except
+				return None
 
 	def main(self, cwd, argv, share=True):
 		"""exit status of main() run in-process (an escaping exception is the interpreter's status 1)."""
@@ -619,7 +773,7 @@ def run_case(ctx, impl, case, number):
 	want_output = bool(options.get('output')) and 'bad-dir' != options.get('output') and 0 == want_status and options.get('generator') != 'verifgen.FailingGenerator'
 	if 'verifgen.NamesGenerator' == options.get('generator') and written is not None:
 		observed = (status, True, written.split('\n')[:-1])
-		expected = (want_status, want_output, spec[1] if want_output else None)
+		expected = (want_status, want_output, emitted(graph, spec[1]) if want_output else None)
 	else:
 		expected = (want_status, want_output)
 	ctx.case((fs_request(graph), sorted(config.items()), mode, sorted(options.items())), dict(sample, implementation=observed, crash=crash, argv=argv))
@@ -629,13 +783,26 @@ def run_case(ctx, impl, case, number):
 		code = expected_exit(graph, outcome, generation_ok)
 		has_output = bool(options.get('output')) and 'bad-dir' != options.get('output') and 0 == code and options.get('generator') != 'verifgen.FailingGenerator'
 		if 'verifgen.NamesGenerator' == options.get('generator') and has_output:
-			return (code, True, outcome[1])
+			return (code, True, emitted(graph, outcome[1]))
 		return (code, has_output)
 
 	if 'verifgen.NamesGenerator' == options.get('generator') and written is not None and not want_output:
 		expected = (want_status, want_output)
 	if observed != expected:
 		report(observed, expected, project_cli, 'exit status / output of the command line differ from the property (0 parses+validates+generates, 2 validation only, 1 missing/unparsable)')
+	if 'cli' == mode and 'ok' == spec[0] and (graph['shape'] in ('carriers', 'invalid', 'invalid-post') or 0 == number % 7):
+		# the stage at which the contributed declarations fail, as the generator intends it, against the validator run over the whole parsed set
+		pre, post = validity(graph, spec[1])
+		whole_set = impl.validate_parsed_set(cwd, include, root)
+		ctx.count(f'validator-over-whole-set:{"pre-errors" if not pre else "post-errors" if not post else "clean"}')
+		intended = ('pre',) if not pre else ('post',) if not post else ('clean',)
+		found = None if whole_set is None else ('pre',) if whole_set[0] else ('post',) if whole_set[1] else ('clean',)
+		if found is not None and found != intended:
+			corr_fail(ctx, f'the generated declarations were meant to fail validation at {intended[0]}, the validator over the whole parsed set says {found[0]} {whole_set}', case)
+		for name in spec[1]:
+			kind = next(item[1] for s in graph['files'].values() for item in s['items'] if 'decl' == item[0] and name == item[2])
+			if kind.startswith('carrier:') or kind.startswith('host:'):
+				ctx.count('validation-carrier:' + kind.rsplit(':', 1)[0] if kind.startswith('host:') else 'validation-carrier:' + kind)
 	if ctx.driver:
 		pre, post = validity(graph, spec[1]) if 'ok' == spec[0] else (True, True)
 		answer = ctx.driver.ask(f'exit {int("ok" == spec[0])} {int(pre)} 1 {int(post)} {int(generation_ok)}')
@@ -682,6 +849,26 @@ def shipped_schemas(ctx, impl):
 		ctx.count('shipped-sets')
 
 
+def carrier_matrix(rng):
+	"""every validation error kind x struct disposition x usage, the carrier in an imported file (or next to its host)"""
+	graphs = []
+	for error in CARRIER_ERRORS:
+		for disposition in ('plain', 'abstract', 'inline'):
+			for usage in ('none', 'named', 'unnamed', 'fieldtype'):
+				if 'named' == usage and 'inline' != disposition:
+					continue
+				carrier = ['decl', f'carrier:{error}:{disposition}', 'CarrierType', False]
+				host = [] if 'none' == usage else [['decl', f'host:{usage}:CarrierType', 'HostType', False]]
+				if rng.random() < 0.75:
+					files = {
+						'f0': {'path': 'f0.cats', 'kind': 'parsed', 'items': [['import', 'f1'], ['decl', 'alias', 'RootAlias', False]] + host},
+						'f1': {'path': 'shared/f1.cats', 'kind': 'parsed', 'items': [['decl', 'alias', 'SharedAlias', False], carrier]}}
+				else:
+					files = {'f0': {'path': 'f0.cats', 'kind': 'parsed', 'items': [['decl', 'alias', 'RootAlias', False], carrier] + host}}
+				graphs.append({'files': files, 'root': 'f0', 'shape': 'carriers', 'missing': [], 'nested': False})
+	return graphs
+
+
 def build_cases(ctx):
 	rng = ctx.rng
 	graphs = ctx.scale(160, 6000)
@@ -691,7 +878,7 @@ def build_cases(ctx):
 		group = []
 		for config in gen_configs(rng, rng.choice([2, 3])):
 			group.append({'graph': graph, 'config': config, 'mode': 'api', 'options': {}})
-		if rng.random() < 0.6:
+		if rng.random() < 0.6 or 'carriers' == graph['shape']:
 			options = rng.choice([
 				{'quiet': True}, {'quiet': False}, {'quiet': True, 'output': 'file'}, {'quiet': True, 'output': 'file'},
 				{'quiet': True, 'output': 'file', 'generator': 'verifgen.NamesGenerator'},
@@ -702,12 +889,17 @@ def build_cases(ctx):
 			for config in gen_configs(rng, 2):
 				group.append({'graph': graph, 'config': config, 'mode': 'cli', 'options': options})
 		groups.append((number, group))
+	for offset, graph in enumerate(carrier_matrix(rng)):
+		options = rng.choice([{'quiet': True}, {'quiet': True, 'output': 'file'}, {'quiet': True, 'output': 'file', 'generator': 'verifgen.NamesGenerator'}])
+		groups.append((graphs + offset, [{'graph': graph, 'config': gen_configs(rng, 1)[0], 'mode': 'cli', 'options': options}]))
 	return groups
 
 
 def run(ctx):
 	impl = Implementation(ctx)
 	ctx.notes.append(f'yaml for the CLI runs: {impl.yaml_kind}')
+	if not probe_file_system(os.path.join(ctx.tmpdir(), 'fs-probe')):
+		ctx.notes.append('the scratch file system folds letter case or unicode normal forms: the case-collision / unicode-names graphs are not generated')
 	shipped_schemas(ctx, impl)
 	groups = build_cases(ctx)
 	counter = 0
